@@ -82,7 +82,7 @@ struct Options {
     std::string kissat = "";
     int dedupFailures = 1;
     bool noSlice = false;
-    std::string dumpDir;
+    std::string dumpDir; bool dumpAll = false;
     bool profile = false;
     std::map<std::string, uint64_t> fixedChoice;   // --fix name=value: nixsym_choice(name, n) returns value without forking
     std::set<std::string> knownIds;
